@@ -7,7 +7,8 @@ base64 and binary headers, zeroth and non-zeroth grams.  Faults are then enumera
 every single-byte substitution at every offset, every truncation length, every header field filled
 with invalid UTF-8 / invalid base64, unknown and ack codes in both encodings, gram numbers and
 counts beyond the legal range (unsigned, and properly signed by the key holder), grams signed by a
-foreign key, unsigned grams sent to a receiver that requires signatures, random datagrams - and
+foreign key, grams signed with a rotated-away key of a transferable (D) vid or for a D/E vid the
+receiver has no key for, unsigned grams sent to a receiver that requires signatures, random datagrams - and
 handed to a real receiver `Memoer`, alone and mixed with the valid rest of the memo.
 
   S  (safety)        no call of serviceAllRx()/serviceAllRxOnce() raises, whatever was received;
@@ -41,15 +42,19 @@ RULE = ("a case = a seed (gram code x header encoding x receiver authic) and one
 ASSUMPTIONS = [
     "the attacker does not hold the genuine signers' private keys (it holds its own key pair)",
     "the receiver's keep maps D/E vids to the genuine verification keys",
+    "the claimed signer's key is: the key spelled out by the vid for non-transferable B vids; the receiver's keep entry "
+    "for D (transferable) and E (digest) vids, no entry = nothing verifies (Memoer.verify / _decodeVID docstrings)",
     "authenticity is claimed only for receivers constructed with authic=True, as in the statement",
 ]
 NSHARDS = {"quick": 16, "thorough": 16}
 TIMEOUT_S = {"quick": 240, "thorough": 1800}
-REQUIRE = {"faults_injected": 20000, "fault_sites": 900, "fault_kinds": 8, "rejected_by_verify": 3000,
+REQUIRE = {"rotation_old_key_rejected": 12, "rotation_current_key_delivered": 24,
+           "unknown_transferable_vid_rejected": 12, "unknown_digest_vid_rejected": 6, "faults_injected": 20000, "fault_sites": 900, "fault_kinds": 8, "rejected_by_verify": 3000,
            "rejected_by_pick_other": 1000, "controls_delivered": 200, "authentic_checks": 10000,
            "dropped_state_checks": 5000}
 EXHAUSTIVE = {
-    "quick": "every byte offset of every seed gram (2 codes x 2 encodings x 3 grams, signed and unsigned) x 16 "
+    "quick": "every byte offset of every seed gram (2 codes x 2 encodings x 3 grams, signed and unsigned; signed seeds "
+             "against a non-authic receiver: code/neck/mid offsets only) x 16 "
              "class-representative substitute values; every truncation length; every 'bAA?' / 'bA?A' / 'b?AA' code in both encodings",
     "thorough": "every byte offset of every seed gram (4 codes x 2 encodings x 3 grams) x all 255 substitute values for "
                 "header and signature bytes (64 for body bytes); every truncation length; every code as in quick",
@@ -112,6 +117,8 @@ def cases(tier, seed, shard, nshards):
             for gi, g in enumerate(grams):
                 labels = ms.field_map(gcodes[gi], cfg["curt"], len(g))
                 for off in range(len(g)):
+                    if quick and signed and not authic and labels[off] in ("vid", "body", "sig"):
+                        continue    # quick: signed seeds x non-authic receiver only for the fields parsed before verify
                     if quick:
                         vals = sorted(set(QUICK_VALUES + [g[off] ^ 0x01, g[off] ^ 0x80]) - {g[off]})
                     elif labels[off] == "body":
@@ -136,6 +143,14 @@ def cases(tier, seed, shard, nshards):
                 if i % nshards == shard:
                     yield {"kind": what, "cfg": cfg, "authic": authic}
                 i += 1
+    # key rotation / unknown signers: who is "the claimed signer" for transferable (D) and digest (E) vids
+    for code in ms.AUTH_ZERO:
+        for curt in (False, True):
+            for authic in (True, False):
+                for ngrams in (1, 2, 3):
+                    if i % nshards == shard:
+                        yield {"kind": "rotation", "code": code, "curt": curt, "authic": authic, "ngrams": ngrams}
+                    i += 1
     rng = random.Random(f"{seed}:C22:{shard}")
     nrand = (600 if quick else 20000) // nshards
     for _ in range(nrand):
@@ -169,13 +184,13 @@ def setup(ctx):
 class Scenario:
     """One fresh receiver; feed datagrams, service, apply both oracles after every service call."""
 
-    def __init__(self, ctx, authic, authentic, what, api="all"):
+    def __init__(self, ctx, authic, authentic, what, api="all", keep=None):
         self.ctx = ctx
         self.authic = authic
         self.authentic = authentic      # set of (text, vid) really sent by key holders
         self.what = what                # fault description for messages / key suffix
         self.api = api
-        self.rx = ms.new_rx(authic, ms.keep_of([0, 1, 2]))
+        self.rx = ms.new_rx(authic, ms.keep_of([0, 1, 2]) if keep is None else keep)
         self.ok = True
         self.fed = []
 
@@ -236,8 +251,9 @@ class Scenario:
                 if (text, vid) not in self.authentic:
                     self.ok = False
                     ctx.violation("unauthentic-memo-delivered:" + self.what.split(" ")[0],
-                                  f"receiver with authic=True delivered text={text[:60]!r} vid={vid!r} which no holder of "
-                                  f"that vid's key sent; fault: {self.what}; datagrams fed: "
+                                  f"receiver with authic=True delivered text={text[:60]!r} vid={vid!r} whose grams do not "
+                                  f"all verify for the claimed signer (nobody holding that signer's current key sent "
+                                  f"it); fault: {self.what}; datagrams fed: "
                                   f"{[d[:60] for d in self.fed[-4:]]!r}")
                     return False
         return True
@@ -331,6 +347,8 @@ def run_case(case, ctx):
     ctx.seen("fault_kinds", kind)
     if kind == "random":
         return run_random(case, ctx)
+    if kind == "rotation":
+        return run_rotation(case, ctx)
     cfg, authic = case["cfg"], case["authic"]
     code, curt = cfg["code"], cfg["curt"]
     signed = cfg["signer"] is not None
@@ -486,6 +504,98 @@ def run_neck(ctx, cfg, authic, authentic, text, vid, grams, gcodes):
             sc.feed(z, "fault", "crafter")
         finally:
             sc.close()
+
+
+OLDKEY, NEWKEY, DIGEST = 22, 25, 23      # memoshim.signer indices: 22 and 25 have D vids, 23 an E vid
+
+
+def run_rotation(case, ctx):
+    """Which key speaks for a vid?  Memoer.verify: "using current verkey for vid"; _decodeVID: only the
+    non-transferable code B is self-certifying ("don't look up in keep just get the public key from the vid"), every
+    other code (D transferable, E digest) is looked up in the receiver's keep and rejected when missing.
+    So for a D vid derived from an old key K1 whose keep entry holds the current key K2, the claimed signer's key is
+    K2: grams signed with K1 do not verify for the claimed signer; with no keep entry nothing verifies."""
+    code, curt, authic, ngrams = case["code"], case["curt"], case["authic"], case["ngrams"]
+    vid_d, key_old = ms.signer(OLDKEY)          # vid spells out the old key K1
+    _v, key_new = ms.signer(NEWKEY)             # current key K2 of the same signer
+    vid_e, key_e = ms.signer(DIGEST)
+    base = Memoer(code=code, curt=curt, size=1).size
+    size = base + 7
+    nbytes = ms.nbytes_for(ngrams, code, curt, size, slack=1) or 24
+
+    def run(what, keep, text, vid, keyage, expect_delivery, counter=None):
+        for variant in (0, 1):
+            ms.reset_mids(what)
+            try:
+                grams = ms.render_as(text, code, curt, size, vid, keyage)
+            except Exception as ex:
+                ctx.violation(ms.escape_key(ex, "tx-escape"), f"could not render rotation seed: {ex!r}")
+                return
+            authentic = {(text, vid)} if expect_delivery else set()
+            sc = Scenario(ctx, authic, authentic, f"{what} (code={code} curt={curt} grams={len(grams)})", keep=keep)
+            try:
+                ctx.count("faults_injected")
+                n = len(grams)
+                order = list(range(n)) if variant == 0 else [0] + list(range(n - 1, 0, -1))   # zeroth first (see C20)
+                if variant == 1 and n < 3:
+                    continue
+                for k in order:
+                    if not sc.feed(grams[k], "fault" if not expect_delivery else "genuine", "peer"):
+                        return
+                got = [(t, v) for t, _s, v in sc.rx.inbox]
+                if expect_delivery:
+                    if got != [(text, vid)]:
+                        ctx.violation("control:memo-signed-with-current-key-not-delivered",
+                                      f"{what}: receiver authic={authic} delivered {got!r} instead of the memo signed "
+                                      f"with the key its keep holds for {vid}")
+                        return
+                    if counter:
+                        ctx.count(counter)
+                elif authic and not got and counter:
+                    ctx.count(counter)
+            finally:
+                sc.close()
+
+    t = ms.make_text("rot", nbytes, random.Random(ngrams))
+    rotated = {vid_d: key_new}
+    # signer rotated K1 -> K2; receiver knows K2
+    run("rotation-current-key", rotated, "<current>" + t, vid_d, key_new, True, "rotation_current_key_delivered")
+    run("rotation-old-key", rotated, "<retired>" + t, vid_d, key_old, False, "rotation_old_key_rejected")
+    # receiver has no entry for the transferable vid: nothing can verify for it, whatever key signed
+    others = ms.keep_of([0, 1, 2])
+    run("unknown-transferable-vid", others, "<unknown-D>" + t, vid_d, key_old, False, "unknown_transferable_vid_rejected")
+    run("unknown-transferable-vid other key", {}, "<unknown-D2>" + t, vid_d, key_new, False,
+        "unknown_transferable_vid_rejected")
+    # never rotated: keep key == key in the vid (what the tree's own tests use)
+    run("rotation-same-key", {vid_d: key_old}, "<same>" + t, vid_d, key_old, True, "rotation_current_key_delivered")
+    # digest vids: in keep -> delivered, missing -> dropped
+    run("digest-vid-known", {vid_e: key_e}, "<E>" + t, vid_e, key_e, True)
+    run("unknown-digest-vid", {}, "<unknown-E>" + t, vid_e, key_e, False, "unknown_digest_vid_rejected")
+    # one memo id, zeroth gram signed with the current key, a later gram with the retired key, then the real one
+    if ngrams >= 2:
+        ncode = Memoer.Pairs[code]
+        for first_bad in (True, False):
+            ms.reset_mids("mixed")
+            mid = Memoer.makeMID()
+            z = craft(NEWKEY, code, curt, 2, mid, b"<mixed>", claim_vid=vid_d)
+            good = craft(NEWKEY, ncode, curt, 1, mid, b"genuine-tail")
+            bad = craft(OLDKEY, ncode, curt, 1, mid, b"FORGED-tail")
+            sc = Scenario(ctx, authic, {("<mixed>genuine-tail", vid_d)},
+                          f"rotation-mixed-keys retired-key gram inside a current-key memo (code={code} curt={curt})",
+                          keep=rotated)
+            try:
+                ctx.count("faults_injected")
+                for g in ([z, bad, good] if first_bad else [bad, z, bad, good]):
+                    if not sc.feed(g, "fault", "peer"):
+                        break
+                else:
+                    if authic and [(t_, v) for t_, _s, v in sc.rx.inbox] == [("<mixed>genuine-tail", vid_d)]:
+                        ctx.count("rotation_old_key_rejected")
+            finally:
+                sc.close()
+    ctx.nontrivial(["rotation", code, curt, authic, ngrams])
+    ctx.sample({"kind": "rotation", "code": code, "curt": curt, "authic": authic, "grams": ngrams,
+                "vid": vid_d, "keep_key": key_new.qvk, "vid_embedded_key": key_old.qvk})
 
 
 def run_foreign(ctx, cfg, authic, authentic, text, vid, grams, gcodes):
